@@ -361,6 +361,33 @@ pub struct Instance<'a> {
     pub host_seed: u64,
     pub host_calls: u64,
     pub ops_executed: u64,
+    /// C18: the function import at this position behaves as the given
+    /// closed-form model (and leaves no trace)
+    pub host_override: Option<(u32, Vec<RModel>)>,
+    pub override_calls: u64,
+}
+
+/// closed-form model of one result of a replacement body
+#[derive(Clone, Debug)]
+pub enum RModel {
+    Const(Val),
+    /// parameter `idx` plus a constant (i32 / i64 wrapping)
+    ParamPlus(usize, i64),
+}
+
+pub fn eval_model(model: &[RModel], args: &[Val]) -> Vec<Val> {
+    model
+        .iter()
+        .map(|m| match m {
+            RModel::Const(v) => *v,
+            RModel::ParamPlus(i, k) => match args.get(*i) {
+                Some(Val::I32(a)) => Val::I32(a.wrapping_add(*k as i32)),
+                Some(Val::I64(a)) => Val::I64(a.wrapping_add(*k)),
+                Some(v) => *v,
+                None => Val::I32(0),
+            },
+        })
+        .collect()
 }
 
 fn fnv64(data: &[u8], seed: u64) -> u64 {
@@ -401,6 +428,15 @@ macro_rules! pop {
 
 impl<'a> Instance<'a> {
     pub fn instantiate(m: &'a Module<'a>, host_seed: u64, fuel: u64) -> Result<Instance<'a>, Trap> {
+        Self::instantiate_with(m, host_seed, fuel, None)
+    }
+
+    pub fn instantiate_with(
+        m: &'a Module<'a>,
+        host_seed: u64,
+        fuel: u64,
+        host_override: Option<(u32, Vec<RModel>)>,
+    ) -> Result<Instance<'a>, Trap> {
         let mut inst = Instance {
             m,
             tables: vec![],
@@ -414,6 +450,8 @@ impl<'a> Instance<'a> {
             host_seed,
             host_calls: 0,
             ops_executed: 0,
+            host_override,
+            override_calls: 0,
         };
         // imported state is created by the host from the import's name and type
         for (module, name, d) in &m.imports {
@@ -561,6 +599,12 @@ impl<'a> Instance<'a> {
     }
 
     fn host_call(&mut self, f: u32, args: Vec<Val>) -> Result<Vec<Val>, Trap> {
+        if let Some((pos, model)) = &self.host_override {
+            if *pos == f {
+                self.override_calls += 1;
+                return Ok(eval_model(model, &args));
+            }
+        }
         // position among function imports
         let mut k = 0;
         let mut found = None;
